@@ -3,7 +3,7 @@ import re
 
 from cfg import cfg_of
 from expr import Exprs, fmt, walk, contains
-from mirutil import is_call, dominating_conds, cond_bool, for_loops
+from mirutil import is_call, dominating_conds, cond_bool, for_loops, local_updates, erase_vars
 from framework import site_of
 import callgraph as cgmod
 import pipeline
@@ -22,6 +22,99 @@ UNDECIDED = "Horner arithmetic correctness inside the loops for all inputs; ZSTD
 
 TP = "ragc_core::tuple_packing::"
 SC = "ragc_core::segment_compression::"
+
+
+def _ranges(vs):
+    vs = sorted(vs)
+    out, i = [], 0
+    while i < len(vs):
+        j = i
+        while j + 1 < len(vs) and vs[j + 1] == vs[j] + 1:
+            j += 1
+        out.append("%d" % vs[i] if i == j else "%d..=%d" % (vs[i], vs[j]))
+        i = j + 1
+    return ",".join(out)
+
+
+def _ev(e, atom, v):
+    if e == atom:
+        return v
+    if not isinstance(e, tuple):
+        return None
+    if e[0] == "const" and isinstance(e[1], (int, bool)):
+        return int(e[1])
+    if e[0] == "bin":
+        a, b = _ev(e[2], atom, v), _ev(e[3], atom, v)
+        if a is None or b is None:
+            return None
+        op = e[1]
+        tbl = {"Lt": lambda: a < b, "Le": lambda: a <= b, "Gt": lambda: a > b, "Ge": lambda: a >= b, "Eq": lambda: a == b, "Ne": lambda: a != b,
+               "BitAnd": lambda: a & b, "BitOr": lambda: a | b, "BitXor": lambda: a ^ b, "Sub": lambda: a - b, "Add": lambda: a + b}
+        return int(tbl[op]()) if op in tbl else None
+    if e[0] == "un" and e[1] == "Not":
+        a = _ev(e[2], atom, v)
+        return None if a is None else int(not a)
+    return None
+
+
+def _tabulate_dispatch(f, ex, target):
+    """for v in 0..=255 (value of the scrutinee): the (N, MAX) instance of `target` reached, None for no call, '?' when undecidable"""
+    from collections import Counter
+    cnt = Counter()
+    sw = []
+    for bi, b in enumerate(f.blocks):
+        t = b["term"]
+        if t["k"] == "switch" and not b["cleanup"]:
+            e = ex.operand(t["discr"])
+            if isinstance(e, tuple) and e[0] == "bin" and e[1] in ("Lt", "Le", "Gt", "Ge", "Eq", "Ne"):
+                for o, c in ((e[2], e[3]), (e[3], e[2])):
+                    if c[0] == "const" and o[0] != "const":
+                        cnt[o] += 1
+                        sw.append((bi, o))
+            elif isinstance(e, tuple) and e[0] not in ("const", "discr") and "u8" in f.locals[t["discr"]["pl"]["l"]]["ty"] if "pl" in t["discr"] else False:
+                cnt[e] += 1
+                sw.append((bi, e))
+    if not cnt:
+        return {"?": list(range(256))}
+    atom = cnt.most_common(1)[0][0]
+    g = cfg_of(f)
+    starts = [bi for bi, o in sw if o == atom]
+    start = [s for s in starts if all(g.dominates(s, x) for x in starts)]
+    out = {}
+    if not start:
+        return {"?": list(range(256))}
+    for v in range(256):
+        b, res, steps = start[0], None, 0
+        while steps < 200:
+            steps += 1
+            t = f.blocks[b]["term"]
+            if t["k"] == "switch":
+                x = _ev(ex.operand(t["discr"]), atom, v)
+                if x is None:
+                    res = "?"
+                    break
+                nxt = t["otherwise"]
+                for val, tb in t["targets"]:
+                    if val == x:
+                        nxt = tb
+                b = nxt
+            elif t["k"] == "goto":
+                b = t["t"]
+            elif t["k"] == "call":
+                if not t.get("indirect") and t["callee"] == target:
+                    res = (int(t["gargs"][0]), int(t["gargs"][1]))
+                    break
+                if t.get("t") is None:
+                    break
+                b = t["t"]
+            elif t["k"] in ("drop", "assert"):
+                b = t.get("t")
+                if b is None:
+                    break
+            else:
+                break
+        out.setdefault(res, []).append(v)
+    return out
 
 
 def run(F, rep):
@@ -57,15 +150,19 @@ def run(F, rep):
     rep.floor("C12-TP1", len(rinst), 3, "unpacker instantiations")
     rep.ob("C12-TP1", "packer and unpacker are instantiated for the same (N, MAX) pairs", sorted((a, b) for a, b, _, _ in winst) == sorted((a, b) for a, b, _, _ in rinst),
            detail="writer %s reader %s" % (sorted((a, b) for a, b, _, _ in winst), sorted((a, b) for a, b, _, _ in rinst)), key="C12-TP1 | same instantiations")
+    # which instance does each possible maximum symbol reach?  (walk the decision region for v = 0..255)
+    reach = _tabulate_dispatch(b2t, exw, pk.key)
+    rep.stat("writer_dispatch", {("%d,%d" % k if k else "pass-through"): _ranges(vs) for k, vs in reach.items() if k != "?"})
+    rep.ob("C12-TP1", "the writer's dispatch on the largest symbol is decidable for every value 0..255", not reach.get("?"),
+           detail="undecided for %s" % _ranges(reach.get("?", [])), key="C12-TP1 | writer dispatch decidable")
     for n, mx, thr, site in winst:
-        rep.ob("C12-TP1", "writer threshold selects the instance whose MAX equals it (N=%d, MAX=%d)" % (n, mx), thr == mx and mx ** n <= 256,
-               detail="threshold max < %s selects MAX=%d; MAX^N = %d" % (thr, mx, mx ** n), site=site, key="C12-TP1 | writer threshold N=%d" % n)
+        vs = reach.get((n, mx), [])
+        rep.ob("C12-TP1", "every symbol reaching the packer instance fits its base (N=%d, MAX=%d) and MAX^N <= 256" % (n, mx),
+               bool(vs) and max(vs) < mx and mx ** n <= 256,
+               detail="largest symbol values %s select MAX=%d; MAX^N = %d" % (_ranges(vs), mx, mx ** n), site=site, key="C12-TP1 | writer threshold N=%d" % n)
     for n, mx, arm, site in rinst:
         rep.ob("C12-TP1", "reader arm literal equals the instance's N (N=%d)" % n, arm == n, detail="match arm %s -> unpack::<%d,%d>" % (arm, n, mx),
                site=site, key="C12-TP1 | reader arm N=%d" % n)
-    # thresholds are increasing and cover: symbols < T for the chosen T
-    ths = [thr for _, _, thr, _ in winst if thr is not None]
-    rep.ob("C12-TP1", "thresholds are tested in increasing order", ths == sorted(ths), detail=str(ths), key="C12-TP1 | threshold order")
     # no-packing marker
     nop = set()
     for bi, t in b2t.calls():
@@ -92,72 +189,49 @@ def run(F, rep):
            detail="writer markers %s, reader pass-through no_bytes == %s" % (sorted(nop), pass_arm), key="C12-TP1 | no-packing marker")
     # ------------------------------------------------------------ TP2
     exp, exu = Exprs(pk), Exprs(up)
-    marker = None
-    for bi, b in enumerate(pk.blocks):
-        for s in b["stmts"]:
-            if s["k"] == "assign" and not s["pl"]["p"] and pk.local_names().get(s["pl"]["l"]) == "marker":
-                marker = exp.rvalue(s["rv"])
+    upd_pk = local_updates(pk, exp)
     want_marker = ("bin", "BitOr", ("bin", "Rem", ("call", "core::slice::<impl [T]>::len", (("param", "bytes"),)), ("cparam", "N")),
                    ("bin", "Shl", ("cparam", "N"), ("const", 4)))
-    rep.ob("C12-TP2", "writer marker = (N << 4) | (len % N)", marker == want_marker, detail=fmt(marker), site="%s:%d" % (pk.file, pk.line_lo), key="C12-TP2 | writer marker")
+    marker_vars = [nm for nm, bi, e, er in upd_pk if e == want_marker]
+    rep.ob("C12-TP2", "writer marker = (N << 4) | (len % N)", len(marker_vars) == 1, detail="locals assigned that value: %s" % marker_vars,
+           site="%s:%d" % (pk.file, pk.line_lo), key="C12-TP2 | writer marker")
     pushed = [exp.operand(t["args"][1]) for bi, t in pk.calls() if t["callee"].endswith("Vec::<u8>::push") or t["callee"].endswith("Vec::<T, A>::push")]
     rep.ob("C12-TP2", "the marker is the last byte pushed by the packer", bool(pushed) and _last_push_is_marker(pk, exp), key="C12-TP2 | marker pushed last")
-    vals = {}
-    for bi, b in enumerate(t2b.blocks):
-        for s in b["stmts"]:
-            if s["k"] == "assign" and not s["pl"]["p"]:
-                nm = t2b.local_names().get(s["pl"]["l"])
-                if nm in ("marker", "no_bytes", "trailing_bytes", "output_size"):
-                    vals[nm] = exr.rvalue(s["rv"])
+    upd_r = [e for nm, bi, e, er in local_updates(t2b, exr)]
     last = ("index", ("param", "tuples"), ("bin", "Sub", ("call", "core::slice::<impl [T]>::len", (("param", "tuples"),)), ("const", 1)))
-    ok = vals.get("marker") == last and vals.get("no_bytes") == ("bin", "Shr", last, ("const", 4)) and \
-        vals.get("trailing_bytes") == ("bin", "BitAnd", ("const", 15), last)
+    ok = last in upd_r and ("bin", "Shr", last, ("const", 4)) in upd_r and ("bin", "BitAnd", ("const", 15), last) in upd_r
     rep.ob("C12-TP2", "reader takes marker = last byte, N = marker >> 4, trailing = marker & 0xf", ok,
-           detail="; ".join("%s=%s" % (k, fmt(v)) for k, v in vals.items()), site="%s:%d" % (t2b.file, t2b.line_lo), key="C12-TP2 | reader nibbles")
+           detail="; ".join(fmt(v) for v in upd_r if "tuples" in fmt(v))[:400], site="%s:%d" % (t2b.file, t2b.line_lo), key="C12-TP2 | reader nibbles")
     ln2 = ("bin", "Sub", ("call", "core::slice::<impl [T]>::len", (("param", "tuples"),)), ("const", 2))
     want_size = ("bin", "Add", ("bin", "BitAnd", ("const", 15), last), ("bin", "Mul", ("bin", "Shr", last, ("const", 4)), ln2))
-    rep.ob("C12-TP2", "output size = (len - 2) * N + trailing", vals.get("output_size") == want_size, detail=fmt(vals.get("output_size")), key="C12-TP2 | output size")
+    rep.ob("C12-TP2", "output size = (len - 2) * N + trailing", want_size in upd_r, detail=str([fmt(v) for v in upd_r if "Mul" in fmt(v)])[:300], key="C12-TP2 | output size")
     # ------------------------------------------------------------ TP3
-    pc, pi = [], []
-    for bi, b in enumerate(pk.blocks):
-        for s in b["stmts"]:
-            if s["k"] == "assign" and not s["pl"]["p"]:
-                nm = pk.local_names().get(s["pl"]["l"])
-                e = exp.rvalue(s["rv"])
-                if nm == "c":
-                    pc.append(e)
-                if nm == "i":
-                    pi.append(e)
-    horner = [e for e in pc if isinstance(e, tuple) and e[0] == "bin" and e[1] == "Add" and ("bin", "Mul", ("cparam", "MAX"), ("var", "c")) in (e[2], e[3])]
-    rep.ob("C12-TP3", "packer accumulates c = c * MAX + symbol in both the full-tuple and the trailing loop", len(horner) == 2,
-           detail=[fmt(e) for e in pc], site="%s:%d" % (pk.file, pk.line_lo), key="C12-TP3 | packer horner")
-    rep.ob("C12-TP3", "packer advances by N per full tuple", ("bin", "Add", ("cparam", "N"), ("var", "i")) in pi, detail=[fmt(e) for e in pi], key="C12-TP3 | packer step")
+    SELF = ("self",)
+    horner = [nm for nm, bi, e, er in upd_pk if isinstance(er, tuple) and er[0] == "bin" and er[1] == "Add" and ("bin", "Mul", ("cparam", "MAX"), SELF) in (er[2], er[3])
+              and "bytes" in fmt(e)]
+    rep.ob("C12-TP3", "packer accumulates c = c * MAX + symbol in both the full-tuple and the trailing loop", len(horner) == 2 and len(set(horner)) == 1,
+           detail="accumulator updates: %s" % horner, site="%s:%d" % (pk.file, pk.line_lo), key="C12-TP3 | packer horner")
+    steps = [nm for nm, bi, e, er in upd_pk if er == ("bin", "Add", ("cparam", "N"), SELF)]
+    rep.ob("C12-TP3", "packer advances by N per full tuple", len(steps) == 1, detail=str(steps), key="C12-TP3 | packer step")
     npush = len(pushed)
     gp = cfg_of(pk)
     uncond = [bi for bi, t in pk.calls() if (t["callee"].endswith("Vec::<u8>::push") or t["callee"].endswith("Vec::<T, A>::push")) and gp.postdominates(bi, 0)]
     rep.ob("C12-TP3", "packer always emits the trailing tuple and the marker (3 push sites, two of them on every path)", npush == 3 and len(uncond) == 2,
            detail="%d push sites, %d unconditional" % (npush, len(uncond)), key="C12-TP3 | trailing always")
-    uc, ui, uj, outs = [], [], [], []
+    upd_up = local_updates(up, exu)
+    divs = [nm for nm, bi, e, er in upd_up if er == ("bin", "Div", SELF, ("cparam", "MAX"))]
+    outs = []
     for bi, b in enumerate(up.blocks):
         for s in b["stmts"]:
-            if s["k"] != "assign":
-                continue
-            e = exu.rvalue(s["rv"])
-            nm = up.local_names().get(s["pl"]["l"])
-            if not s["pl"]["p"]:
-                if nm == "c":
-                    uc.append(e)
-                if nm == "i":
-                    ui.append(e)
-                if nm == "j":
-                    uj.append(e)
-            elif s["pl"]["ty"] == "u8" and any(isinstance(p, dict) and "idx" in p for p in s["pl"]["p"]):
-                outs.append(e)
-    rep.ob("C12-TP3", "unpacker writes c % MAX and divides c by MAX (both loops)", outs.count(("bin", "Rem", ("var", "c"), ("cparam", "MAX"))) == 2 and
-           uc.count(("bin", "Div", ("var", "c"), ("cparam", "MAX"))) == 2, detail="writes %s; c updates %s" % ([fmt(e) for e in outs], [fmt(e) for e in uc]),
+            if s["k"] == "assign" and s["pl"]["p"] and s["pl"]["ty"] == "u8" and any(isinstance(p, dict) and "idx" in p for p in s["pl"]["p"]):
+                outs.append(erase_vars(exu.rvalue(s["rv"])))
+    rep.ob("C12-TP3", "unpacker writes c % MAX and divides c by MAX (both loops)", outs.count(("bin", "Rem", ("var", "$"), ("cparam", "MAX"))) == 2 and
+           len(divs) == 2 and len(set(divs)) == 1, detail="writes %s; divisions on %s" % ([fmt(e) for e in outs], divs),
            site="%s:%d" % (up.file, up.line_lo), key="C12-TP3 | unpacker digits")
-    rep.ob("C12-TP3", "unpacker advances one tuple and N outputs per step", ("bin", "Add", ("const", 1), ("var", "i")) in ui and ("bin", "Add", ("cparam", "N"), ("var", "j")) in uj,
-           key="C12-TP3 | unpacker step")
+    one = [nm for nm, bi, e, er in upd_up if er == ("bin", "Add", ("const", 1), SELF)]
+    nst = [nm for nm, bi, e, er in upd_up if er == ("bin", "Add", ("cparam", "N"), SELF)]
+    rep.ob("C12-TP3", "unpacker advances one tuple and N outputs per step", len(one) >= 1 and len(nst) == 1 and not set(one) & set(nst),
+           detail="+1 on %s, +N on %s" % (one, nst), key="C12-TP3 | unpacker step")
     # digits are written most-significant first: loop over (0..N).rev() / (0..n).rev()
     revs = [L for L in for_loops(up, exu) if contains(L["source"], lambda x: isinstance(x, tuple) and x[0] == "call" and re.search(r"Iterator>?::rev$", x[1]))]
     rep.ob("C12-TP3", "unpacker fills positions from the last to the first (reverse of the packer's Horner order)", len(revs) == 2, detail="%d reversed loops" % len(revs),
@@ -236,12 +310,6 @@ def run(F, rep):
 def _last_push_is_marker(pk, ex):
     g = cfg_of(pk)
     pushes = [(bi, t) for bi, t in pk.calls() if t["callee"].endswith("Vec::<u8>::push") or t["callee"].endswith("Vec::<T, A>::push")]
-    mk = [bi for bi, t in pushes if ex.operand(t["args"][1]) == ("var", "marker") or pk.local_names().get(t["args"][1].get("pl", {}).get("l")) == "marker" or
-          "marker" in fmt(ex.operand(t["args"][1]))]
-    if not mk:
-        # marker is single-def: compare expression
-        for bi, t in pushes:
-            if "Shl" in repr(ex.operand(t["args"][1])):
-                mk.append(bi)
+    mk = [bi for bi, t in pushes if "Shl" in repr(ex.operand(t["args"][1]))]
     after = g.reachable_from(mk[0]) - {mk[0]} if mk else set()
     return bool(mk) and not any(bi in after for bi, _ in pushes)
